@@ -110,6 +110,10 @@ def check_C01(tier, seed):
         act = [9, 10, 11, 12, 14, 15, 16, 17]
         gens.append(("nfc8", gen_cfg(28, act, [k for k in range(28) if k not in act], pre=("kv",),
                                      acts=("keep", "del"), ends=("commit",), nestfill=[13, 3]), ["three"]))
+        # every leaf below an interior node emptied in one transaction (8 consecutive keys of a 3-level tree)
+        act = list(range(8, 16))
+        gens.append(("run8", gen_cfg(28, act, [k for k in range(28) if k not in act], pre=("kv",),
+                                     acts=("keep", "del"), ends=("commit",)), ["three"]))
         # one transaction that needs more than one 8 MiB extension step of the file
         n, act, fill = spread(4, 0)
         gens.append(("grow4", gen_cfg(n, act, fill, pre=("kv",), acts=("keep", "put"), ends=("commit", "reopen")),
@@ -584,12 +588,12 @@ def check_C03(tier, seed):
     stats = {}
     presz = ["--num-pages", "8192"]   # single thread: the file must not grow while a reader is open
     if tier == "quick":
-        plans = [("gr6", 8, 6, 2, ["two", "three"], 12), ("gr7r3", 6, 7, 3, ["two"], 40)]
+        plans = [("gr8", 8, 8, 2, ["two", "three"], 60), ("gr8r3", 6, 8, 3, ["two"], 150)]
         runs = [dict(profile=p, seed=seed * 100 + i, n=4, len=70, nkeys=10, nvals=4,
                      args=["--readback", "0", "--presized", "1", "--max-readers", "3"])
                 for i, p in enumerate(["two", "overflow"])]
     else:
-        plans = [("gr7", 10, 7, 2, ["two", "three", "overflow"], 20), ("gr8r3", 8, 8, 3, ["two", "three"], 60)]
+        plans = [("gr9", 10, 9, 2, ["two", "three", "overflow"], 100), ("gr9r3", 6, 9, 3, ["two", "three"], 300)]
         runs = [dict(profile=p, seed=seed * 1000 + i * 10 + j, n=10, len=120, nkeys=nk, nvals=4,
                      args=["--readback", "0", "--presized", "1", "--max-readers", "4"])
                 for i, p in enumerate(["two", "overflow", "three", "longkey"]) for j, nk in enumerate([10, 24])]
